@@ -267,7 +267,8 @@ Proof.
   | |- context [match rd16 ?l ?k with _ => _ end] => destruct (rd16 l k)
   | |- context [match rd ?l ?k with _ => _ end] => destruct (rd l k)
   end; try congruence;
-  try (destruct (negb (is_leech r)); [congruence|]; destruct (len <? Params.c03_piece_min_len)%N; congruence).
+  try (destruct (negb (is_leech r)); [congruence|]; destruct (len <? Params.c03_piece_min_len)%N; congruence);
+  try (destruct (is_meta r); congruence).
   match goal with |- context [if ?c then Bad RExtBad else _] => destruct c eqn:E end; [congruence|].
   apply orb_false_iff in E. destruct E as [_ E].
   replace (2147483648 <=? sub32 len Params.c03_ext_hdr_sub)%N with false; [congruence|].
